@@ -13,7 +13,11 @@ mode changes, renames, moves between directories, swaps, rename chains and 3-cyc
 directory renamed together with something inside it, file<->dir<->symlink kind
 changes, `.bzrignore` added / edited / removed / renamed, an ignore list of plain names or basename globs
 - the real Globster sees the pattern, model and oracle its fnmatch expansion over the namespace) are
-committed in a real 2a tree; after every commit
+committed in a real 2a tree AND in a real git-format tree (every pinned sequence in both formats, a quarter of the
+random sequences from git; git trees have no file ids: renames and COPIES are found by content - a text that
+reappears at further new paths while its old path goes away gives `copied` entries, pinned sequences
+move-and-duplicate*, remove-and-duplicate and the generator op `dup` - and directories exist only through their
+files); after every commit
 (and for jumps back to earlier revisions = "after overwrite") the revision is
 uploaded with the real BzrUploader to a local directory transport -
 incrementally or with upload_full_tree onto the existing remote.  For every
@@ -64,6 +68,11 @@ sequences that run first:
    dir-swap-chmod-below, dir-replace-edit-below and by the generator ops dir+edit / dirswap+edit /
    dirreplace+edit (NoSuchFile variant and the silent variant with a spurious old-path file);
  * harmless: finish_deletions rewritten with a pop() loop - stays clean.
+Seeded change C43b (the added loop iterates `changes.added` instead of `changes.added + changes.copied`; only git
+trees report copies): plain VIOLATION on seeds 0-3 ("d/e: remote absent, tree f", script move-and-duplicate from
+a git branch) plus T2 mismatches; the model's delta has its own `copied` list (theorems copied_paths_reach_remote,
+copied_dropped_witness).  Fixed by 40339a4 after being found here and therefore plain violations if they return
+(checked by reverting): unescaped symlink paths, removal of a special file after a full upload.
 Improvement round (worktree with /var/tmp/imp-C43C44/c43/C43-upload-fixes.patch applied): urlutils.escape dropped from
 _up_put_bytes / _up_rename / _up_delete (each caught by the odd-names script and by generated sequences: a
 percent name lands elsewhere, a non-ASCII name raises InvalidURL), Globster fed only the wildcard-free patterns
@@ -86,10 +95,10 @@ THEOREMS = [
     "kind_change_below_renamed_dir_witness", "deferred_deletion_witnesses", "deferred_deletion_empty_occupant_witness", "full_upload_keeps_stale_witness", "ignored_rename_boundary_witness", "ignored_never_addressed",
     "full_upload_onto_empty_reaches_tree", "incremental_upload_reaches_tree_partial", "incremental_upload_frame",
     "upload_sequence_reaches_tree_partial", "full_upload_idempotent", "full_upload_twice",
-    "special_file_removed_witness", "unescaped_symlink_witness",
+    "special_file_removed_witness", "unescaped_symlink_witness", "copied_paths_reach_remote", "copied_dropped_witness",
 ]
-RULE = ("case = one upload: (remote listing before, tree delta the uploader computes, new tree, ignore list, mode "
-        "incremental | full | overwrite-jump); 27 pinned sequences, then sequences of 4-7 commits of 1-3 random edits "
+RULE = ("case = one upload from a bzr-format or git-format branch: (remote listing before, tree delta the uploader computes, new tree, ignore list, mode "
+        "incremental | full | overwrite-jump); 32 pinned sequences (each from a 2a and a git branch), then sequences of 4-7 commits of 1-3 random edits "
         "over 8 names (3 of them need URL escaping); non-trivial = the delta has >= 2 entries or a rename; distinct by "
         "the canonical model input line; plus one treeWF and - for rename-free deltas - one deltaOK evaluation per upload")
 ASSUMPTIONS = [
@@ -110,11 +119,11 @@ FAMILIES = {
     "deferred-deletion-below-renamed-directory-nosuchfile": "a directory is removed below a directory that is renamed in the same delta; its deferred rmdir runs at the OLD path after the renames are finished: NoSuchFile",
     "rename-onto-deleted-directory-directorynotempty": "a directory takes the path of a directory removed in the same delta; the deferred rmdir of the removed one then hits the new occupant: DirectoryNotEmpty",
     "rename-onto-deleted-directory-readerror": "an entry takes the path of a directory removed in the same delta; the deferred rmdir runs after finish_renames: ReadError",
-    "rename-onto-deleted-directory-empty-occupant-removed": "an EMPTY directory takes the path of a directory removed in the same delta; the deferred rmdir of the removed one then silently removes the new occupant",
+    "rename-onto-deleted-directory-empty-occupant-removed": "an EMPTY directory takes the path of a directory removed in the same delta; the deferred rmdir of the removed one then silently removes the new occupant (NoSuchFile when the revision also adds something below it)",
     "delete-directory-with-ignored-content-directorynotempty": "a removed directory still holds ignored remote content: the deferred rmdir raises DirectoryNotEmpty",
     "full-upload-keeps-stale-paths": "upload --full onto an existing remote never deletes paths that left the tree",
-    "symlink-path-not-url-escaped": "upload_symlink hands link and target path to Transport.symlink without urlutils.escape: a symlink whose path or target path has a non-ASCII character cannot be uploaded (InvalidURL); one with a percent sign is rejected too or lands at the percent-decoded path",
-    "special-file-removed-after-full-upload-nosuchfile": "`.bzrignore` / `.bzrignore-upload` is removed (or changes kind) in a revision uploaded incrementally after a full upload, which never copied it: NoSuchFile",
+    "git-delta-omits-new-directory": "git-format branch: a directory that comes into being only through renamed (or ignored) files is in no list of the tree delta; upload_tree never creates it: NoSuchFile when a rename is finished into it, or the directory is silently missing",
+    "git-delta-omits-removed-directory": "git-format branch: a directory that ceases to exist only through renamed (or ignored) files is in no list of the tree delta; upload_tree never removes it: a stale directory stays on the remote, or a file renamed onto its path fails (ReadError)",
     "special-file-renamed-after-full-upload-nosuchfile": "`.bzrignore` / `.bzrignore-upload` is renamed in a revision uploaded incrementally after a full upload, which never copied it: NoSuchFile",
 }
 
@@ -206,9 +215,10 @@ def enc_delta(d):
     rm = ",".join("%s:%s" % (tokp(c.path[0]), K[c.kind[0]]) for c in d.removed) or "-"
     rn = ",".join("%s:%s:%s" % (tokp(c.path[0]), tokp(c.path[1]), "T" if c.changed_content else "F") for c in d.renamed) or "-"
     kc = ",".join("%s:%s:%s:%s" % (tokp(c.path[0]), tokp(c.path[1]), K[c.kind[0]], K[c.kind[1]]) for c in d.kind_changed) or "-"
-    ad = ",".join(tokp(c.path[1]) for c in list(d.added) + list(d.copied)) or "-"
+    ad = ",".join(tokp(c.path[1]) for c in d.added) or "-"
+    cp = ",".join(tokp(c.path[1]) for c in d.copied) or "-"
     md = ",".join(tokp(c.path[1]) for c in d.modified) or "-"
-    return "&".join([rm, rn, kc, ad, md])
+    return "&".join([rm, rn, kc, ad, cp, md])
 
 
 # --------------------------------------------------------------------------
@@ -259,7 +269,7 @@ def mutate(rng, wt):
     dirs = [""] + [p for p in paths if _isdir(root, p)]
     op = rng.choice(["add", "add", "rm", "mv", "mv", "swap", "mod", "kind", "chmod", "nested", "nested2",
                      "into-new", "retarget", "chain", "dir+edit", "dir+edit", "dirswap+edit", "dirreplace+edit",
-                     "bzrignore"])
+                     "bzrignore", "dup", "dup"])
 
     def newpath():
         d = rng.choice(dirs)
@@ -304,6 +314,40 @@ def mutate(rng, wt):
             wt.rename_one(y, x)
             wt.rename_one("swaptmp", y)
             return ("swap", x, y)
+        if op == "dup":
+            # the text of a file appears at one or two NEW paths, the file itself is moved away, removed or kept:
+            # a git tree reports `copied` entries for the extra instances (a bzr tree plain additions)
+            fs = [p for p in paths if _isfile(root, p)]
+            if fs:
+                src = rng.choice(fs)
+                with open(os.path.join(root, src), "rb") as f:
+                    text = f.read()
+                if len(text) < 40:
+                    text = text + b"".join(b"line %d of %d\n" % (i, rng.randint(0, 9)) for i in range(12))
+                    with open(os.path.join(root, src), "wb") as f:
+                        f.write(text)
+                    return ("dup-grow", src)
+                how = rng.choice(["move", "move", "remove", "keep"])
+                targets = []
+                for _ in range(rng.choice([1, 2, 2])):
+                    d = newpath()
+                    if d != src and free(d) and d not in targets and not any(d.startswith(t + "/") or t.startswith(d + "/") for t in targets):
+                        targets.append(d)
+                if not targets:
+                    return None
+                if how == "move":
+                    wt.rename_one(src, targets[0])
+                    rest = targets[1:]
+                else:
+                    rest = targets
+                    if how == "remove":
+                        wt.remove([src], keep_files=False, force=True)
+                for d in rest:
+                    with open(os.path.join(root, d), "wb") as f:
+                        f.write(text)
+                if rest:
+                    wt.smart_add([os.path.join(root, d) for d in rest])
+                return ("dup", how, src, ",".join(targets))
         if op == "bzrignore":
             # `.bzrignore` is one of the two files a full upload skips and an incremental upload copies
             full = os.path.join(root, ".bzrignore")
@@ -636,7 +680,7 @@ def _under(p, roots):
     return any(p == r or p.startswith(r + "/") for r in roots)
 
 
-def classify(mode, err, delta, ents, before, names, got, exp, from_kinds):
+def classify(mode, err, delta, ents, before, names, got, exp, from_kinds, fmt="2a"):
     """family slug computed from the concrete input, or None.  Every family is
     narrow: for uploads that did not raise it must account for ALL the paths on
     which remote and tree differ; and run() keeps a family only if the real
@@ -648,14 +692,21 @@ def classify(mode, err, delta, ents, before, names, got, exp, from_kinds):
 
     ren = [(c.path[0], c.path[1]) for c in delta.renamed
            if not (is_ign(names, c.path[0]) and is_ign(names, c.path[1]))] if delta is not None else []
-    created = set(tree) if mode == "full" else {c.path[1] for c in list(delta.added) + list(delta.copied)
-                                                + list(delta.modified) + list(delta.kind_changed)}
-    hit = [(p, q) for p, q in bad_links(ents) if p in created and not is_ign(names, p)]
-    if hit and (err == "InvalidURL" or any(q is not None for _p, q in hit)):
-        # InvalidURL, or the link was created / looked for at the percent-decoded path (NoSuchFile, FileExists, or
-        # a stray link): run() keeps the family only if the model - told what the transport does with these
-        # paths - predicts exactly the observed outcome
-        return "symlink-path-not-url-escaped"
+    if mode != "full" and fmt == "git":
+        # a git tree has no directory entries of its own: `changes_from` reports a directory as added / removed only
+        # together with added / removed files; a directory that comes into being (or ceases to be) through RENAMED
+        # or ignored files alone is in no list of the delta - upload_tree is never told to create (remove) it
+        old_dirs = {p for p, k in from_kinds.items() if k == "d"}
+        new_dirs = {p for p, v in tree.items() if v[0] == "d"}
+        told_new = {c.path[1] for c in list(delta.added) + list(delta.copied) + list(delta.kind_changed)}
+        told_gone = {c.path[0] for c in list(delta.removed) + list(delta.kind_changed)}
+        implied_new = {p for p in new_dirs - old_dirs if p not in told_new and not is_ign(names, p)}
+        implied_gone = {p for p in old_dirs - new_dirs if p not in told_gone and not is_ign(names, p)}
+        if implied_new and (err == "NoSuchFile" or (err is None and diff and all(_under(p, implied_new | implied_gone) for p in diff))):
+            return "git-delta-omits-new-directory"
+        if implied_gone and (err in ("ReadError", "FileExists", "DirectoryNotEmpty", "NoSuchFile")
+                             or (err is None and diff and all(_under(p, implied_gone) for p in diff))):
+            return "git-delta-omits-removed-directory"
     if mode != "full":
         if err == "NoSuchFile":
             added = {c.path[1] for c in list(delta.added) + list(delta.copied)}
@@ -667,9 +718,6 @@ def classify(mode, err, delta, ents, before, names, got, exp, from_kinds):
                         return "rename-into-directory-not-yet-created"
                     parent = os.path.dirname(parent)
         if err == "NoSuchFile" and any(c.path[0] in SPECIAL and c.path[0] not in before and not is_ign(names, c.path[0])
-                                        for c in list(delta.removed) + list(delta.kind_changed)):
-            return "special-file-removed-after-full-upload-nosuchfile"
-        if err == "NoSuchFile" and any(c.path[0] in SPECIAL and c.path[0] not in before and not is_ign(names, c.path[0])
                                         for c in delta.renamed):
             return "special-file-renamed-after-full-upload-nosuchfile"
         removed_dirs = {c.path[0] for c in delta.removed if c.kind[0] == "directory" and not is_ign(names, c.path[0])}
@@ -679,19 +727,26 @@ def classify(mode, err, delta, ents, before, names, got, exp, from_kinds):
             return "rename-onto-deleted-directory-directorynotempty"
         if err == "NoSuchFile" and any(d.startswith(o + "/") for d in removed_dirs for o, _ in ren):
             return "deferred-deletion-below-renamed-directory-nosuchfile"
-        if err == "DirectoryNotEmpty" and any(is_ign(names, p) and any(p.startswith(d + "/") for d in removed_dirs)
+        gone_dirs = removed_dirs | {c.path[1] for c in delta.kind_changed if c.kind[0] == "directory" and not is_ign(names, c.path[1])}
+        if err == "DirectoryNotEmpty" and any(is_ign(names, p) and any(p.startswith(d + "/") for d in gone_dirs)
                                               for p in before):
             return "delete-directory-with-ignored-content-directorynotempty"
         if err == "NoSuchFile" and any(is_ign(names, o) != is_ign(names, n) for o, n in ren):
             return "rename-across-ignore-boundary-nosuchfile"
+        if err == "NoSuchFile":
+            # ... or, when the revision also adds something below that directory, the addition finds no parent
+            lost = [n for _o, n in ren if n in removed_dirs and tree.get(n, ("?",))[0] == "d" and n not in got]
+            below = {c.path[1] for c in list(delta.added) + list(delta.copied)}
+            if lost and any(p.startswith(n + "/") for p in below for n in lost):
+                return "rename-onto-deleted-directory-empty-occupant-removed"
         if err is None:
             lost = [n for _o, n in ren if n in removed_dirs and tree.get(n, ("?",))[0] == "d" and n not in got]
             if lost and all(p in lost for p in diff):
                 return "rename-onto-deleted-directory-empty-occupant-removed"
             crossing = [n for o, n in ren if is_ign(names, o) and not is_ign(names, n)]
-            extra = set(got) - set(exp)
-            if crossing and extra and all(got.get(p) == v for p, v in exp.items()) \
-                    and all(any(p.startswith(n + "/") for n in crossing) for p in extra):
+            # the ignored remote content travels with the directory: paths the tree does not have, or - where
+            # the tree has the path too - the stale remote text (it was never updated while it was ignored)
+            if crossing and diff and all(any(p.startswith(n + "/") for n in crossing) and p in got for p in diff):
                 return "rename-across-ignore-boundary-moves-ignored-content"
         as_file = [c.path[1] for c in delta.renamed if (c.path[0], c.path[1]) in ren
                    and (from_kinds.get(c.path[0]) != tree.get(c.path[1], ("?",))[0]
@@ -769,9 +824,9 @@ def one_upload(ctx, wt, remote, rid, mode, case):
     ctx.count("mode:" + mode + ("(no marker)" if eff_mode != mode else ""))
     ctx.count("error:" + (err or "none"))
     if delta is not None:
-        for k in ("removed", "renamed", "kind_changed", "added", "modified"):
+        for k in ("removed", "renamed", "kind_changed", "added", "copied", "modified"):
             if getattr(delta, k):
-                ctx.count("delta:" + k)
+                ctx.count("delta:" + k + (":git" if case.get("fmt") == "git" else ""))
     # ---- oracle --------------------------------------------------------
     exp = {p: v for p, v in ents if p not in SPECIAL and not is_ign(names, p)}
     got = {p: v for p, v in after.items() if p not in SPECIAL and not is_ign(names, p)}
@@ -780,7 +835,7 @@ def one_upload(ctx, wt, remote, rid, mode, case):
     pend = None
     if err is not None or got != exp:
         ok = False
-        fam = classify(eff_mode, err, delta, ents, before, names, got, exp, from_kinds)
+        fam = classify(eff_mode, err, delta, ents, before, names, got, exp, from_kinds, case.get("fmt", "2a"))
         diff = sorted(set(got) ^ set(exp)) + sorted(p for p in set(got) & set(exp) if got[p] != exp[p])
         what = ("upload raised %s; " % err if err else "") + "remote differs from the uploaded tree at %s" % (
             ["%s: remote %s, tree %s" % (p, (got.get(p) or ("absent",))[0], (exp.get(p) or ("absent",))[0]) for p in diff[:3]],)
@@ -807,19 +862,21 @@ def one_upload(ctx, wt, remote, rid, mode, case):
     # ---- model line ------------------------------------------------------
     line = "up %s %s %s %s %s %s" % (
         "full" if eff_mode == "full" else "inc", _VARIANT[0], ",".join(tokp(n) for n in names) or "-", enc_fs(before),
-        enc_listing(ents), enc_delta(delta) if delta is not None else "-&-&-&-&-")
+        enc_listing(ents), enc_delta(delta) if delta is not None else "-&-&-&-&-&-")
     line += " " + enc_bad(ents)
     # the hypotheses of the upload theorems, evaluated by the model on the real data: every revision tree is
     # `treeWF`; every real delta in which nothing is renamed (outside ignored paths) and the two special files
     # are neither removed nor changed in kind is `deltaOK`
     _HYP.append((dict(case, hypothesis="treeWF"), "wf %s" % enc_listing(ents), "T"))
-    if delta is not None and rename_free(delta, names) and not bad_links(ents):
+    if delta is not None and case.get("fmt") == "git":
+        ctx.count("hypothesis:deltaOK-not-evaluated(git delta: renames and copies are detected by content)")
+    elif delta is not None and rename_free(delta, names) and not bad_links(ents):
         ctx.count("hypothesis:deltaOK-on-real-delta")
         _HYP.append((dict(case, hypothesis="deltaOK"), "dok %s %s %s %s" % (
             ",".join(tokp(n) for n in names) or "-", enc_listing(from_ents), enc_listing(ents), enc_delta(delta)), "T"))
     impl = "%s %s" % (err or "~", canon_fs(after))
     nontrivial = delta is not None and (len(delta.renamed) >= 1 or sum(len(getattr(delta, k)) for k in
-                                        ("removed", "renamed", "kind_changed", "added", "modified")) >= 2)
+                                        ("removed", "renamed", "kind_changed", "added", "copied", "modified")) >= 2)
     ctx.case(line, nontrivial=nontrivial or eff_mode == "full" and len(ents) >= 2)
     if pend is not None:
         _PENDING.append([line, impl] + pend)
@@ -842,6 +899,8 @@ def resync(wt, remote, rid):
     except Exception:   # noqa: BLE001 - e.g. nothing
         pass
 
+
+TEXT = "".join("line %d of the shared text\n" % i for i in range(12))
 
 # hand-written sequences that run first on every run: one list of edits per commit
 SCRIPTS = {
@@ -875,7 +934,17 @@ SCRIPTS = {
     "dir-onto-deleted-dir": [[("mkdir", "f"), ("mkdir", "f/a"), ("file", "f/a/a", "1"), ("mkdir", "f/d"), ("file", "f/d/b", "2")],
                              [("mv", "f/a/a", "f/e"), ("rm", "f/a"), ("mv", "f/d", "f/a")]],
     "empty-dir-onto-deleted-dir": [[("mkdir", "a"), ("file", "a/b", "1"), ("mkdir", "d")], [("rm", "a"), ("mv", "d", "a")]],
+    "empty-dir-onto-deleted-dir-then-add": [[("mkdir", "a"), ("file", "a/b", "1"), ("mkdir", "d")],
+                                            [("rm", "a"), ("mv", "d", "a"), ("file", "a/f", "2")]],
     "rename-modified": [[("file", "a", "1"), ("mkdir", "d")], [("file", "a", "11"), ("mv", "a", "d/b")]],
+    # the text of a file that is moved away (or removed) reappears at further new paths: a git tree reports the
+    # extra instances as COPIED (a bzr tree as added); they must reach the remote like additions
+    "move-and-duplicate": [[("file", "a", TEXT), ("file", "k", "1"), ("mkdir", "d"), ("file", "d/f", "2")],
+                           [("mv", "a", "b"), ("file", "d/e", TEXT)], [("file", "k", "11")]],
+    "move-and-duplicate-into-new-dir": [[("file", "a", TEXT), ("file", "k", "1")],
+                                        [("mv", "a", "b"), ("mkdir", "e"), ("file", "e/a", TEXT), ("file", "f", TEXT)]],
+    "remove-and-duplicate": [[("file", "a", TEXT), ("file", "k", "1")], [("rm", "a"), ("file", "b", TEXT), ("file", "d", TEXT)]],
+    "duplicate-only": [[("file", "a", TEXT), ("file", "k", "1")], [("file", "b", TEXT)]],
     # a rename chain that is no cycle: a -> b -> d -> e
     "chain-3": [[("file", "a", "1"), ("file", "b", "2"), ("mkdir", "d"), ("file", "d/x", "3")],
                 [("mv", "d", "e"), ("mv", "b", "d"), ("mv", "a", "b")]],
@@ -937,8 +1006,8 @@ def apply_script_op(wt, op):
         wt.rename_one("chaintmp", x)
 
 
-def run_script(ctx, name):
-    wt = env.make_tree("2a")
+def run_script(ctx, name, fmt="2a"):
+    wt = env.make_tree(fmt)
     remote = env.fresh_dir("c43r")
     out = []
     try:
@@ -946,9 +1015,9 @@ def run_script(ctx, name):
             for op in ops:
                 apply_script_op(wt, op)
             rid = wt.commit("c%d" % c)
-            case = dict(script=name, commit=c, upload=c, mode="inc", edits=[list(o) for o in ops])
+            case = dict(script=name, fmt=fmt, commit=c, upload=c, mode="inc", edits=[list(o) for o in ops])
             line, impl, ok = one_upload(ctx, wt, remote, rid, "inc", case)
-            ctx.count("script:" + name)
+            ctx.count("script:" + name + (":git" if fmt == "git" else ""))
             out.append((case, line, impl))
             if not ok:
                 resync(wt, remote, rid)
@@ -958,9 +1027,9 @@ def run_script(ctx, name):
     return out
 
 
-def run_sequence(ctx, seed, ncommits):
+def run_sequence(ctx, seed, ncommits, fmt="2a"):
     rng = _random.Random(repr(seed))
-    wt = env.make_tree("2a")
+    wt = env.make_tree(fmt)
     remote = env.fresh_dir("c43r")
     revs = []
     out = []
@@ -980,7 +1049,7 @@ def run_sequence(ctx, seed, ncommits):
                 o = mutate(rng, wt)
                 if o:
                     ops.append(o)
-                    ctx.count("edit:" + o[0])
+                    ctx.count("edit:" + o[0] + (":git" if fmt == "git" else ""))
             if any(o[0] == "skip" and o[2] == "PanicException" for o in ops):
                 ctx.count("sequence-abandoned:panic-in-working-tree")
                 break       # the working tree may be inconsistent after a panic in the inventory code
@@ -993,7 +1062,7 @@ def run_sequence(ctx, seed, ncommits):
             revs.append(rid)
             r = rng.random()
             mode = "inc" if r < 0.7 else "full"
-            case = dict(seq=list(seed), commit=c, upload=len(out), mode=mode, edits=[list(map(str, o)) for o in ops])
+            case = dict(seq=list(seed), fmt=fmt, commit=c, upload=len(out), mode=mode, edits=[list(map(str, o)) for o in ops])
             line, impl, ok = one_upload(ctx, wt, remote, rid, mode, case)
             out.append((case, line, impl))
             if not ok:
@@ -1002,7 +1071,7 @@ def run_sequence(ctx, seed, ncommits):
                 # "after overwrite": jump back to an earlier revision, then forward again
                 back = rng.choice(revs[:-1])
                 for target in (back, rid):
-                    case = dict(seq=list(seed), commit=c, upload=len(out), mode="overwrite-jump", to=revs.index(target))
+                    case = dict(seq=list(seed), fmt=fmt, commit=c, upload=len(out), mode="overwrite-jump", to=revs.index(target))
                     line, impl, ok = one_upload(ctx, wt, remote, target, "jump", case)
                     out.append((case, line, impl))
                     if not ok:
@@ -1039,15 +1108,20 @@ def run(ctx, nseq=None):
     del _PENDING[:]
     del _HYP[:]
     probe_variant(ctx)
-    nseq = nseq or ctx.pick(40, 600)
+    nseq = nseq or ctx.pick(28, 500)
+    ngit = max(1, nseq // 3)
     cases, lines, impls = [], [], []
-    for name in SCRIPTS:
-        for case, line, impl in run_script(ctx, name):
-            cases.append(case)
-            lines.append(line)
-            impls.append(impl)
-    for i in range(nseq):
-        for case, line, impl in run_sequence(ctx, (ctx.seed, i), ctx.rng.randint(4, 7)):
+    # every pinned sequence from a bzr-format and from a git-format branch (git trees have no file ids: renames
+    # and copies are detected by content, empty directories are not versioned)
+    for fmt in ("2a", "git"):
+        for name in SCRIPTS:
+            for case, line, impl in run_script(ctx, name, fmt):
+                cases.append(case)
+                lines.append(line)
+                impls.append(impl)
+    for i in range(nseq + ngit):
+        fmt = "2a" if i < nseq else "git"
+        for case, line, impl in run_sequence(ctx, (ctx.seed, i), ctx.rng.randint(4, 7), fmt):
             cases.append(case)
             lines.append(line)
             impls.append(impl)
@@ -1068,7 +1142,7 @@ def replay(ctx, case):
     del _PENDING[:]
     probe_variant(ctx)
     if "script" in case:
-        for c, line, impl in run_script(ctx, case["script"]):
+        for c, line, impl in run_script(ctx, case["script"], case.get("fmt", "2a")):
             if c["upload"] == case["upload"]:
                 m = ctx.model([line])[0]
                 flush_pending(ctx)
@@ -1079,7 +1153,7 @@ def replay(ctx, case):
     rng = _random.Random(ctx.seed)
     # the sequence is regenerated with the same per-sequence seed; the number of commits is
     # not recorded, so run the longest and pick the recorded upload
-    out = run_sequence(ctx, seed, 7)
+    out = run_sequence(ctx, seed, 7, case.get("fmt", "2a"))
     for c, line, impl in out:
         if c["upload"] == case["upload"]:
             m = ctx.model([line])[0]
